@@ -454,7 +454,10 @@ type c17E2ECase struct {
 	Script []string
 }
 
-var c17Wire = []string{"ok", "rpc-error", "400", "401", "404", "408", "409", "429", "500", "503", "520", "refused", "reset", "eof"}
+// "lost": the server reads and answers the request, but the keep-alive connection dies before the
+// first byte of the answer reaches the client (memnet.LoseResponses: net/http itself re-sends a
+// request it considers replayable, any other fails with EOF).
+var c17Wire = []string{"ok", "rpc-error", "400", "401", "404", "408", "409", "429", "500", "503", "520", "refused", "reset", "eof", "lost"}
 
 func c17E2ECases(tier string) []c17E2ECase {
 	var out []c17E2ECase
@@ -474,7 +477,7 @@ func c17E2ECases(tier string) []c17E2ECase {
 
 func c17Transient(o string) bool {
 	switch o {
-	case "408", "409", "429", "500", "503", "520", "refused", "reset", "eof":
+	case "408", "409", "429", "500", "503", "520", "refused", "reset", "eof", "lost":
 		return true
 	}
 	return false
@@ -500,6 +503,18 @@ func c17E2EEval(tier string, i int) CaseResult {
 			times = append(times, vsched.Now().Sub(start))
 			return o
 		}
+		ss.fab.LoseResponses(1000, func(req *http.Request) bool {
+			if req.Method != http.MethodPost || req.GetBody == nil {
+				return false
+			}
+			rc, _ := req.GetBody()
+			b, _ := io.ReadAll(rc)
+			pos := attempts
+			if pos >= len(cs.Script) {
+				pos = len(cs.Script) - 1
+			}
+			return strings.Contains(string(b), `"tools/call"`) && cs.Script[pos] == "lost"
+		}, io.EOF)
 		ss.fab.Intercept = func(req *http.Request, x *memnet.Exchange) (*http.Response, error, bool) {
 			if req.Method != http.MethodPost || !strings.Contains(string(x.ReqBody), `"tools/call"`) {
 				return nil, nil, false
@@ -511,7 +526,7 @@ func c17E2EEval(tier string, i int) CaseResult {
 				return nil, errors.New("read tcp 10.0.0.1:5->10.0.0.2:80: read: connection reset by peer"), true
 			case "eof":
 				return nil, io.EOF, true
-			case "ok", "rpc-error":
+			case "ok", "rpc-error", "lost":
 				attempts-- // the handler below consumes this script position
 				times = times[:len(times)-1]
 				return nil, nil, false
